@@ -87,6 +87,8 @@ def make_pool(rng):
         for j in range(2):
             method = str(rng.choice(ALL_METHODS if step['kind'] in ('default', 'scalar') else ALL_METHODS))
             n = int(rng.integers(1, 3)) if method == 'multicomplex' else int(rng.integers(1, 5))
+            if method == 'complex' and rng.random() < 0.5:
+                n = 1
             if j == 1 and step['kind'] in ('min', 'max'):
                 # the twin configuration takes its steps from the other generator class (exact vs inexact steps) with the same
                 # options, and in half of the cases has the same (method, n): both then want the same rule-cache entry
@@ -113,6 +115,9 @@ def make_pool(rng):
                 which = [str(v) for v in rng.permutation(['n', 'order', 'method'])[:int(rng.integers(1, 4))]]
                 alts.append(dict(method=m2, n=n2, order=int(rng.choice([1, 2, 4, 6])), which=which,
                                  restore=[str(v) for v in rng.permutation(which)]))
+            # ... and a third one that changes nothing but the order, to the other side of 4 (where the complex-step formula changes)
+            o3 = int(rng.choice([1, 2, 3])) if cfg['order'] >= 4 else int(rng.choice([4, 6, 8]))
+            alts.append(dict(method=method, n=n, order=o3, which=['order'], restore=['order']))
             cfg['alts'] = alts
             pool.append(cfg)
     # six configurations of the multivariate classes (they share module-level helpers and the rule cache with Derivative)
@@ -281,7 +286,7 @@ def cases(rng, tier, shard, nshards):
             elif u < 0.55:
                 ops.append(['call', i_cfg, int(rng.integers(0, 2))])
             elif u < 0.67:
-                ops.append(['mutate_restore', i_cfg, int(rng.integers(0, 2))])
+                ops.append(['mutate_restore', i_cfg, int(rng.integers(0, 3))])
             elif u < 0.77:
                 ops.append(['share', 2 * int(rng.integers(0, 6))])
             elif u < 0.85:
